@@ -28,6 +28,28 @@ pub fn batches(ctx: &Ctx) -> Vec<Batch> {
     for (i, r) in rules.iter().enumerate() { if (i + ctx.seed as usize) % kc != 0 { continue } v.push(Batch { groups: vec![RuleGroup::from_rules(vec![r.clone()])], words: words.clone(), from: vec![], trace: false, tag: "C" }); }
     for bad in ["a > ", "[+foo] > a", "a > e / _ _", "% > *", "* > a", "a > [+place]", "{a} > {e, o}"] { v.push(Batch { groups: vec![RuleGroup::from_rules(vec![bad.to_string()])], words: vec!["pa.ta".into(), "a".into(), "ˈ".into()], from: vec![], trace: false, tag: "D" }); }
     for (i, r) in rules.iter().enumerate().take(60) { v.push(Batch { groups: vec![RuleGroup::from(format!("g{i}"), vec![r.clone()], String::new())], words: words.iter().skip(i).step_by(37).cloned().collect(), from: vec![], trace: true, tag: "E" }); }
+    // (F) state that could survive from one word to the next inside a call: rules whose input binds an alpha or a variable in its
+    //     first element and uses it in a later one (also across `$`, in the context, in metathesis), on lists of short words over a
+    //     small inventory - so that many words END in a partial match and the next one BEGINS with a match of the other value
+    let mut r = Rng::new(ctx.seed, 0xC01F);
+    let inv = ["p", "b", "t", "d", "k", "ɡ", "s", "z", "m", "n", "a", "i", "u"];
+    let feats = ["voice", "nasal", "cont", "son", "cons", "syll", "hi", "back"];
+    for _ in 0..ctx.pick(600, 6000) {
+        let (f, g) = (*r.pick(&feats), *r.pick(&feats));
+        let rule = match r.below(9) {
+            0 => format!("[+cons, α{f}]=1 [+cons, α{f}] > 1 1"),
+            1 => format!("[α{f}] [-α{f}] > &"),
+            2 => format!("[α{f}] > [+{g}] / _ [α{f}]"),
+            3 => format!("[α{f}] $ [α{f}] > [+{g}] $ [+{g}]"),
+            4 => format!("C=1 V 1 > 1 V [+{g}]"),
+            5 => format!("[α{f}, β{g}] [α{f}] [β{g}] > * 2 3"),
+            6 => format!("[α{f}] [α{f}] $ > [-{g}] [+{g}] $"),
+            7 => format!("[α{f}]=1 C > 1 1 / _ [α{f}]"),
+            _ => plain(&rand_rule(&mut r, &RuleCfg { max_side: 2, ..RuleCfg::default() })),
+        };
+        let words: Vec<String> = (0..r.range(4, 9)).map(|_| { let n = r.range(1, 5); let mut w = String::new(); let mut last = ""; for j in 0..n { let x = *r.pick(&inv); if x == last { continue } if j > 0 && r.chance(1, 3) { w.push('.') } w += x; last = x; } w }).collect();
+        v.push(Batch { groups: vec![RuleGroup::from_rules(vec![rule])], words, from: vec![], trace: false, tag: "F" });
+    }
     v
 }
 
@@ -55,6 +77,8 @@ pub fn child(ctx: &Ctx, out: &str) {
         if r1 != r3 { let i = (0..r1.len()).find(|i| r1[*i] != r3[*i]).unwrap(); order_diff.push(json!({"batch": bi, "word": b.words[i], "forward": r1[i], "reversed": r3[i]})); }
         // ... and one call on the whole list (when every word succeeds) must agree with the per-word calls
         if !b.trace && r1.iter().all(|x| !x.starts_with("Err(") && !x.starts_with("Abort(")) {
+            // and the list in the other order, in one call, must give the same words in the other order
+            if let (Ok(whole), Ok(mut back)) = (run_pub(&b.groups, &b.words, &[], &b.from), run_pub(&b.groups, &rev, &[], &b.from)) { back.reverse(); if whole != back { let i = (0..whole.len().min(back.len())).find(|i| whole[*i] != back[*i]).unwrap_or(0); order_diff.push(json!({"batch": bi, "word": b.words[i], "forward": whole[i], "reversed": back[i], "one_call_per_order": true})); } }
             if let Ok(whole) = run_pub(&b.groups, &b.words, &[], &b.from) { if whole != r1 { let i = (0..r1.len()).find(|i| r1[*i] != whole[*i]).unwrap_or(0); list_diff.push(json!({"batch": bi, "word": b.words[i], "alone": r1[i], "in_list": whole.get(i)})); } }
         }
         results.push(r1);
@@ -118,7 +142,7 @@ pub fn explore(ctx: &Ctx, shard: usize, _n: usize) -> Report {
     for g in &good {
         for (key, sig) in [("repeat_diff", "second-call-differs"), ("order_diff", "word-order-changes-result"), ("list_diff", "list-call-differs-from-single-calls")] {
             if let Some(a) = g[key].as_array() { for d in a { let bi = d["batch"].as_u64().unwrap_or(0) as usize; let b = &bs[bi]; let rule = b.groups[0].rule.first().cloned().unwrap_or_default(); let d2 = d.clone();
-                rep.violation(sig.to_string(), || json!({"case": {"rule": rule, "word": d2["word"], "from": b.from, "trace": b.trace}, "observed": d2})); } }
+                rep.violation(sig.to_string(), || json!({"case": {"rule": rule, "word": d2["word"], "words": b.words, "from": b.from, "trace": b.trace}, "observed": d2})); } }
         }
     }
     rep.sample(|| json!({"batch": "A", "rule": bs[0].groups[0].rule[0], "words": bs[0].words.len(), "first_results": good[0]["results"][0].as_array().map(|a| a.iter().take(6).cloned().collect::<Vec<_>>())}));
@@ -134,6 +158,24 @@ pub fn replay(ctx: &Ctx, v: &Value) -> Report {
         let c: Value = serde_json::from_str(&ctx.args[i + 1]).unwrap_or(Value::Null);
         let b = Batch { groups: vec![RuleGroup::from(String::from("g"), vec![jstr(&c, "rule")], String::new())], words: vec![jstr(&c, "word")], from: jstrs(&c, "from"), trace: c["trace"].as_bool().unwrap_or(false), tag: "R" };
         println!("{}", eval(&b, &b.words)[0]);
+        return rep;
+    }
+    if v["words"].is_array() {
+        // an in-process witness (second call / word order / list vs single calls): the same comparisons on its word list
+        let b = Batch { groups: vec![RuleGroup::from(String::from("g"), vec![jstr(v, "rule")], String::new())], words: jstrs(v, "words"), from: jstrs(v, "from"), trace: v["trace"].as_bool().unwrap_or(false), tag: "R" };
+        rep.eval(4);
+        let (r1, r2) = (eval(&b, &b.words), eval(&b, &b.words));
+        if r1 != r2 { rep.violation("second-call-differs".into(), || json!({"case": v, "first": r1, "second": r2})); return rep }
+        let mut rev = b.words.clone(); rev.reverse();
+        let mut r3 = eval(&b, &rev); r3.reverse();
+        if r1 != r3 { rep.violation("word-order-changes-result".into(), || json!({"case": v, "forward": r1, "reversed": r3})); return rep }
+        if !b.trace && r1.iter().all(|x| !x.starts_with("Err(") && !x.starts_with("Abort(")) {
+            if let (Ok(whole), Ok(mut back)) = (run_pub(&b.groups, &b.words, &[], &b.from), run_pub(&b.groups, &rev, &[], &b.from)) {
+                back.reverse();
+                if whole != back { rep.violation("word-order-changes-result".into(), || json!({"case": v, "forward": whole, "reversed": back})); return rep }
+                if whole != r1 { rep.violation("list-call-differs-from-single-calls".into(), || json!({"case": v, "alone": r1, "in_list": whole})); return rep }
+            }
+        }
         return rep;
     }
     let exe = std::env::current_exe().expect("exe");
